@@ -24,7 +24,7 @@ var poolVals = []int64{
 
 // Family describes how the coordinates of a closed path set are generated.
 type Family struct {
-	Kind string `json:"kind"` // g1 | rect | oct | lattice | dense
+	Kind string `json:"kind"` // g1 | rect | oct | lattice | dense | boxes | levels (| tips-and-bars, C04 only)
 	R    int64  `json:"r"`    // coordinate radius
 	Step int64  `json:"step"` // lattice step (rect/oct/lattice)
 	// Spread (g1 only): rapid's integer generators favour small magnitudes, which
@@ -53,8 +53,14 @@ func (f Family) Label() string {
 var g1Radii = []int64{1000, 10000, 1000000, 100000000, maxC}
 
 func drawFamily(t *rapid.T) Family {
-	k := rapid.IntRange(0, 10).Draw(t, "famKind")
+	k := rapid.IntRange(0, 11).Draw(t, "famKind")
 	switch {
+	case k == 11:
+		// vertices on a few Y levels with generic X: many exactly horizontal edges, overlapping
+		// horizontal runs of different paths on one scanline, tips exactly on the scanline of
+		// another path's horizontal edge - the horizontal-join machinery without a lattice in X
+		step := rapid.SampledFrom([]int64{2, 10, 1000, 1 << 20}).Draw(t, "step")
+		return Family{Kind: "levels", R: 8 * step, Step: step}
 	case k == 10:
 		// plain axis-parallel boxes on a coarse grid, either orientation, several per set: unions
 		// whose rings are cut many times along coincident edges
@@ -117,6 +123,18 @@ func drawClosedPath(t *rapid.T, f Family) Path {
 			p = c2.ReversePath(p)
 		}
 		return p
+	case "levels":
+		n := drawVertexCount(t, 3, 10, 20)
+		p := make(Path, 0, n)
+		lv := rapid.Int64Range(-4, 4).Draw(t, "lv0")
+		for i := 0; i < n; i++ {
+			if i > 0 && rapid.IntRange(0, 9).Draw(t, "lvKeep") >= 3 {
+				lv = rapid.Int64Range(-4, 4).Draw(t, "lv") // otherwise: stay on the level (a horizontal edge)
+			}
+			x := spreadCoord(rapid.Int64Range(-f.R, f.R).Draw(t, "lvx"), f.R)
+			p = append(p, P{X: x, Y: lv * f.Step})
+		}
+		return p
 	case "rect":
 		m := rapid.IntRange(2, 6).Draw(t, "corners")
 		xs := make([]int64, m)
@@ -131,6 +149,28 @@ func drawClosedPath(t *rapid.T, f Family) Path {
 		}
 		return p
 	case "oct":
+		if rapid.IntRange(0, 3).Draw(t, "octTri") == 0 {
+			// small right isosceles triangles (legs or hypotenuse axis-parallel): sets of a few of
+			// them put several tips, horizontal runs and 45-degree edges on one scanline
+			x := rapid.Int64Range(-6, 6).Draw(t, "tx") * f.Step
+			y := rapid.Int64Range(-6, 6).Draw(t, "ty") * f.Step
+			l := rapid.Int64Range(1, 4).Draw(t, "tl") * f.Step
+			sx := int64(rapid.SampledFrom([]int{-1, 1}).Draw(t, "tsx"))
+			sy := int64(rapid.SampledFrom([]int{-1, 1}).Draw(t, "tsy"))
+			var p Path
+			switch rapid.IntRange(0, 2).Draw(t, "tkind") {
+			case 0:
+				p = Path{{X: x, Y: y}, {X: x + sx*l, Y: y}, {X: x, Y: y + sy*l}}
+			case 1:
+				p = Path{{X: x, Y: y}, {X: x + 2*l, Y: y}, {X: x + l, Y: y + sy*l}}
+			default:
+				p = Path{{X: x, Y: y}, {X: x, Y: y + 2*l}, {X: x + sx*l, Y: y + l}}
+			}
+			if rapid.Bool().Draw(t, "trev") {
+				p = c2.ReversePath(p)
+			}
+			return p
+		}
 		n := drawVertexCount(t, 3, 9, 24)
 		x := rapid.Int64Range(-4, 4).Draw(t, "ox") * f.Step
 		y := rapid.Int64Range(-4, 4).Draw(t, "oy") * f.Step
